@@ -63,6 +63,16 @@ def direct_frames(ctx: Ctx):
         d = {C.PropertyId(p): rng.choice([0, 1, 2, 3, 4, 25, 50, 75, 100, rng.randrange(256)]) for p in ids}
         d[C.PropertyId.BUZZER] = rng.choice([False, True])
         emit("set_props", C.SetPropertiesCommand(d), writes=[{"id": int(p), "v": int(v)} for p, v in d.items()])
+    # every subset of ALL property ids, those the library cannot encode included (0x0015, 0x004B, 0x021E): the library may refuse such a request,
+    # but whatever it does emit is a well-formed command whose announced count matches the entries it carries
+    allp = [int(x) for x in C.PropertyId if int(x) != 0x1A]
+    unenc = {0x0015, 0x004B, 0x021E}
+    for m in (range(1, 1 << len(allp)) if not ctx.quick else rng.sample(range(1, 1 << len(allp)), 300)):
+        ids = [allp[j] for j in range(len(allp)) if m >> j & 1]
+        if not set(ids) & unenc:
+            continue
+        d = {C.PropertyId(p): rng.choice([0, 1, 2, 25, 50, 100]) for p in ids}
+        emit("set_props_optional", C.SetPropertiesCommand(d), writes=[{"id": int(p), "v": int(v)} for p, v in d.items() if int(p) not in unenc])
     # set-state over field domains
     for _ in range(ctx.pick(400, 6000)):
         s = c10.rand_state(rng)
@@ -241,11 +251,17 @@ def run(ctx: Ctx) -> int:
             v["writes"] = "skip"
     allv = vecs + dv
     tlc_in = []
+    refused = 0
     for v in allv:
-        if v["exc"] != "none":
+        if v["exc"] != "none" and v["kind"] == "set_props_optional":
+            refused += 1                       # a request outside the encodable domain may be refused; nothing was emitted
+            continue
+        elif v["exc"] != "none":
             ctx.violation("emitting an in-domain command raised", v["exc"], v)
             continue
         w = dict(v)
+        if w["kind"] == "set_props_optional":
+            w["kind"] = "set_props"
         if w.get("writes") == "skip":
             w["kind"] = "set_props_any"
             w.pop("writes")
